@@ -112,16 +112,26 @@ WinSampleIdx(n) == { i \in {1, 2, n \div 2, 3999, 4000, 4001, 4002, 7999, 8000, 
 WinSampleOver(s, k) == IF Len(s) <= k THEN s ELSE SetToSeq({ s[i] : i \in WinSampleIdx(Len(s)) })
 WinSample(s) == WinSampleOver(s, WinBig)
 WinAclLists(rules) == UNION { { rules[i].localAddrs, rules[i].remoteAddrs } : i \in DOMAIN rules }
-\* first / last element of every long address list the real code rendered (= its chunk boundaries)
-WinIRBoundary(c) ==
+\* the long address lists the real code rendered
+WinLongLists(c) ==
     LET lists == WinAclLists(c.acl) \cup UNION { WinAclLists(c.calls[k].rules) : k \in DOMAIN c.calls }
-    IN UNION { IF Len(l) > WinBig THEN { l[1], l[Len(l)] } ELSE {} : l \in lists }
+    IN { l \in lists : Len(l) > WinBig }
+\* their first / last elements (= the chunk boundaries) ...
+WinIRBoundary(c) == UNION { { l[1], l[Len(l)] } : l \in WinLongLists(c) }
+\* ... and, for a big IP set, a few members that appear in NO rendered long list and a few rendered entries that
+\* are not members (both empty when the chunks add up to the set): a lost or invented chunk is probed directly
+WinFew(S, k) == LET q == SetToSeq(S) IN { q[i] : i \in 1..(IF Len(q) < k THEN Len(q) ELSE k) }
+WinDivergent(c, members) ==
+    LET ref == PSElems(members)
+        ir == UNION { PSElems(l) : l \in WinLongLists(c) }
+    IN WinFew(ref \ ir, 6) \cup WinFew(ir \ ref, 4)
 WinProbeSets(c) ==
     [id \in DOMAIN c.sets |->
         IF Len(c.sets[id].members) <= WinBig THEN c.sets[id]
         ELSE [type |-> c.sets[id].type,
               members |-> SetToSeq(PSElems(WinSample(c.sets[id].members))
-                                   \cup (IF c.sets[id].type = "net" THEN WinIRBoundary(c) ELSE {}))]]
+                                   \cup (IF c.sets[id].type = "net"
+                                         THEN WinIRBoundary(c) \cup WinDivergent(c, c.sets[id].members) ELSE {}))]]
 \* the action plays no role in choosing probes: rules that differ only in the action share their probes
 WinProbeRule(r) == [r EXCEPT !.action = "allow", !.srcPorts = WinSampleOver(@, WinManyPorts), !.dstPorts = WinSampleOver(@, WinManyPorts)]
 
